@@ -7,7 +7,7 @@
    (next, body, fails, isnil, maxdepth), all programs (any number of goroutines, any
    operations) and ALL schedules. *)
 From Coq Require Import List Arith Bool.
-From GoPdf.C18 Require Import Cache CacheLemmas CacheInv CacheExcl CacheOnce CacheCount CacheLive CachePair CacheSeq CacheThm CacheExamples.
+From GoPdf.C18 Require Import Cache CacheLemmas CacheInv CacheExcl CacheOnce CacheCount CacheLive CacheTypes CachePair CacheSeq CacheThm CacheExamples.
 Import ListNotations.
 
 (* ---- agree: all calls for one object and type return one value ---- *)
@@ -85,6 +85,46 @@ Theorem waiter_outcome :
   exists o, In (EPub r t p o) (log (sh s)) /\ In (EExc tid r t o) (log (sh s')).
 Proof. exact waiter_outcome_thm. Qed.
 Print Assumptions waiter_outcome.
+
+(* ---- calls for different result types of one reference are independent ---- *)
+(* a waiting DecodeExclusive[T](r) waits for an entry registered under its own key (r, T) ... *)
+Theorem wait_same_key :
+  forall next body fails isnil maxdepth progs sched s b tid th r t p,
+  wf_file next body -> wf_progs next progs ->
+  run next body fails isnil maxdepth store_or_load (init progs) sched = (s, b) ->
+  nth_error (ths s) tid = Some th -> tpc th = PExWait r t p ->
+  exists o, nth_error (pends (sh s)) p = Some ((r, t), o).
+Proof. exact wait_same_key_thm. Qed.
+Print Assumptions wait_same_key.
+
+(* ... and a DecodeExclusive[T](r) that finds nothing cached and no open entry for (r, T) becomes the
+   leader for (r, T) and goes on to run its own decode - whatever entries of OTHER types of r are open *)
+Theorem excl_leads_own_type :
+  forall next body fails isnil maxdepth progs sched s b tid th r t path,
+  wf_file next body -> wf_progs next progs ->
+  run next body fails isnil maxdepth store_or_load (init progs) sched = (s, b) ->
+  nth_error (ths s) tid = Some th -> tpc th = PExEnter r t path ->
+  lookup (cache (sh s)) (r, t) = None ->
+  (forall p, nth_error (pends (sh s)) p <> Some ((r, t), None)) ->
+  exists s' th' p,
+    step next body fails isnil maxdepth store_or_load s tid = Some s' /\ nth_error (ths s') tid = Some th' /\
+    tpc th' = PProbe {| cref := r; cty := t; cpath := path; cex := Some p |} r [] path /\
+    lookup (wip (sh s')) (r, t) = Some p /\
+    nth_error (pends (sh s')) p = Some ((r, t), None).
+Proof. exact excl_leads_own_type_thm. Qed.
+Print Assumptions excl_leads_own_type.
+
+Example two_exclusive_types_in_flight :
+  let '(tr, s, ok) := run_trace nonext nobody never never 256
+                        (init [[OExcl true 1 0]; [OExcl true 1 1]]) [0;1; 0;1; 0;1; 0;1; 0;1; 0;1; 0;1] in
+  ok = true /\ forallb (forallb (fun st => negb (Nat.eqb st 2))) tr = true /\
+  map (fun ev => match ev with
+                 | ERun tid c e => Some (tid, cty c, 0)
+                 | EExc tid r t (Ok v) => Some (tid, t, v)
+                 | _ => None end) (rev (log (sh s)))
+  = [Some (0, 0, 0); Some (1, 1, 0); None; Some (0, 0, 1); None; Some (1, 1, 2)] /\
+  cache (sh s) = [((1, 1), 2); ((1, 0), 1)].
+Proof. exact two_types_in_flight. Qed.
 
 (* ---- pair_atomic ---- *)
 (* for types (ta, tb) published only through StoreOrLoadPair: both views present or both absent *)
